@@ -348,6 +348,9 @@ def openPackageResource(package, path):
 
 def _url_from_file(file_or_path):
     name = getattr(file_or_path, "name", None)
+    if isinstance(name, bytes):
+        # open(os.fsencode(path)): the same file as open(path)
+        name = os.fsdecode(name)
     if not isinstance(name, str):
         # e.g. the integer descriptor of a file made with os.fdopen()
         return None
